@@ -52,6 +52,7 @@ type EventOut struct {
 // WorkItem is a feasible (or not yet refuted) decision prefix.
 type WorkItem struct {
 	Prefix []int
+	Aux    []uint64 // values chosen by Concretize along the prefix (replayed verbatim)
 	Model  sym.Model // nil: feasibility unknown, must be checked after replay
 }
 
@@ -176,6 +177,8 @@ type Path struct {
 	QTimeout time.Duration
 	usedMapOrder bool
 	known map[*sym.Term]bool
+	auxPrefix []uint64
+	auxTrace []uint64
 	SkippedQ int64
 }
 
@@ -360,7 +363,7 @@ func (p *Path) Choose(n int, conds []*sym.Term) int {
 		}
 		np := append(append([]int{}, p.trace...), i)
 		if conds == nil {
-			p.Ex.push(WorkItem{Prefix: np, Model: p.model})
+			p.Ex.push(WorkItem{Prefix: np, Model: p.model, Aux: append([]uint64{}, p.auxTrace...)})
 			continue
 		}
 		ci := p.simp(conds[i])
@@ -371,9 +374,9 @@ func (p *Path) Choose(n int, conds []*sym.Term) int {
 		r, m := p.query(ci, true)
 		switch r {
 		case solver.Sat:
-			p.Ex.push(WorkItem{Prefix: np, Model: m})
+			p.Ex.push(WorkItem{Prefix: np, Model: m, Aux: append([]uint64{}, p.auxTrace...)})
 		case solver.Unknown:
-			p.Ex.push(WorkItem{Prefix: np, Model: nil})
+			p.Ex.push(WorkItem{Prefix: np, Model: nil, Aux: append([]uint64{}, p.auxTrace...)})
 		}
 	}
 	p.trace = append(p.trace, chosen)
@@ -397,7 +400,13 @@ func (p *Path) Concretize(t *sym.Term, what string) uint64 {
 		return t.Val
 	}
 	for i := 0; i < 16; i++ {
-		v := p.eval(t)
+		var v uint64
+		if len(p.auxTrace) < len(p.auxPrefix) {
+			v = p.auxPrefix[len(p.auxTrace)]
+		} else {
+			v = p.eval(t)
+		}
+		p.auxTrace = append(p.auxTrace, v)
 		if p.Branch(p.Ctx.Eq(t, p.Ctx.BV(t.W, v))) {
 			return v
 		}
